@@ -5,8 +5,7 @@
 // One ndjson line per event.  After EVERY event the recorder reads back all 0x800 offsets through the
 // host accessor (except CMD0..2 = 0x0C2/0x0C6/0x0CA, whose read is a mailbox receive) and compares with
 // the read-backs it had before the event; the line carries the complete list of changes
-//   "ch":[[offset,new read-back],...]     (65536 = DMA window register while active_channel >= 8:
-//                                          the code would index channels[] out of range; never read)
+//   "ch":[[offset,new read-back],...]
 // and the changes of the state no register shows directly, taken through TeakraVerifAccess
 //   "hid":[[id,value],...]  id 0..3 timer0/1 counter hi,lo; 16+32*ch+f DMA channel ch field f;
 //                           300,301 audio FIFO length; 400+i,416+i,432+i ICU vector low/high/ctx i;
@@ -66,7 +65,7 @@ using TVA = TeakraVerifAccess;
 
 namespace {
 
-constexpr unsigned NOFF = 0x800, NHID = 600, OOB = 65536;
+constexpr unsigned NOFF = 0x800, NHID = 600;
 const unsigned CMD[3] = {0x0C2, 0x0C6, 0x0CA};
 
 struct MemGuard : Teakra::VerifMemObserver { // a DMA started with wild addresses must not leave the array
@@ -101,10 +100,8 @@ struct Rec {
     static bool cmd(unsigned off) { return off == CMD[0] || off == CMD[1] || off == CMD[2]; }
 
     void observe(uint32_t* s, uint32_t* h) {
-        bool oob = active() >= 8;
         for (unsigned off = 0; off < NOFF; ++off) {
             if (cmd(off)) s[off] = 0;
-            else if (oob && window(off)) s[off] = OOB;
             else s[off] = t->MMIORead((u16)off);
         }
         for (unsigned i = 0; i < NHID; ++i) h[i] = 0;
@@ -206,8 +203,7 @@ struct Rec {
     // would a start of the active channel terminate quickly?  (sizes of 0 count as 1; 32-bit mode
     // with size0 = 0xFFFF never terminates, a 2^48 element transfer effectively never)
     bool dma_start_safe() {
-        if (active() >= 8) return false;
-        uint32_t f[18]; TVA::channel(im().dma, active(), f);
+        uint32_t f[18]; TVA::channel(im().dma, active() & 7, f);
         uint64_t n = (uint64_t)(f[4] ? f[4] : 1) * (f[5] ? f[5] : 1) * (f[6] ? f[6] : 1);
         return n <= 4096;
     }
@@ -233,11 +229,10 @@ void sweep(Rec& r, vh::Rng& rng, unsigned part, unsigned parts, bool full) {
         for (unsigned v : vs) {
             if (off == 0x1DE && v == 0x40C0 && !r.dma_start_safe()) continue;
             for (char p : {'h', 'g'}) {
-                if (Rec::window(off) && r.active() >= 8) r.W('h', 0x1BE, rng.below(8));
                 r.W(p, off, v, rng.below(32));
-                if (Rec::window(off) && r.active() >= 8) continue;  // 0x1BE itself may have left the range
                 r.R('h', off, rng.below(32));
                 r.R('g', off);
+                if (off == 0x1BE) { r.R('g', 0x1C2); r.W('h', 0x1CC, v ^ 0x00FF); r.R('h', 0x1DA); } // window after ANY select value
                 if (off == 0x112 && r.im().miu.z_page != 0) r.W('h', 0x112, 0); // or every guest access asserts
             }
         }
@@ -276,11 +271,10 @@ void random_histories(Rec& r, vh::Rng& rng, long n) {
             if (c < 60) off = rng.pick(doc);
             else if (c < 80) off = rng.below(0x400) * 2;
             else off = rng.below(0x800);
-            if (Rec::window(off) && r.active() >= 8) { r.W(p, 0x1BE, rng.below(8), rng.below(32)); continue; }
             if (r.im().miu.z_page != 0 && rng.chance(1, 2)) { r.W('h', 0x112, 0, rng.below(32)); continue; }
             if (k < 520) {
                 unsigned v = rng.edge16();
-                if (off == 0x1BE && rng.chance(3, 4)) v = rng.below(8);
+                if (off == 0x1BE && rng.chance(1, 2)) v = rng.below(8); // else any 16-bit value: only v & 7 may count
                 if (off == 0x112 && rng.chance(3, 4)) v = 0;
                 if (off == 0x11E && rng.chance(3, 4)) v = rng.pick(basev);
                 if ((off == 0x20 || off == 0x30) && rng.chance(2, 3)) v = rng.pick(cfgv) | (rng.chance(1, 3) ? rng.u16() & 0xF8E0 : 0);
